@@ -315,14 +315,14 @@ func (g *schemaGenerator) generateDeclaredType(t *schemas.Type, scope nameScope)
 			validators = append(validators, &requiredValidator{f, decl.Name})
 		}
 
-		for _, f := range tt.Fields {
-			if f.DefaultValue != nil {
-				if f.Name == additionalProperties {
-					g.output.file.Package.AddImport("reflect", "")
-					g.output.file.Package.AddImport("strings", "")
-					g.output.file.Package.AddImport("github.com/go-viper/mapstructure/v2", "")
-				}
+		hasAdditionalProperties := false
 
+		for _, f := range tt.Fields {
+			if f.Name == additionalProperties {
+				hasAdditionalProperties = true
+			}
+
+			if f.DefaultValue != nil {
 				validators = append(validators, &defaultValidator{
 					jsonName:         f.JSONName,
 					fieldName:        f.Name,
@@ -335,6 +335,14 @@ func (g *schemaGenerator) generateDeclaredType(t *schemas.Type, scope nameScope)
 		}
 
 		if t.IsSubSchemaTypeElem() || len(validators) > 0 {
+			// The unmarshaler of a struct with an AdditionalProperties field always contains the
+			// block that collects them, so its imports are needed whenever the unmarshaler is.
+			if hasAdditionalProperties {
+				g.output.file.Package.AddImport("reflect", "")
+				g.output.file.Package.AddImport("strings", "")
+				g.output.file.Package.AddImport("github.com/go-viper/mapstructure/v2", "")
+			}
+
 			g.generateUnmarshaler(decl, validators)
 		}
 
